@@ -317,8 +317,8 @@ func (e persistEngine) Run(raw json.RawMessage) (interface{}, error) {
 			seenStray := map[string]bool{}
 			for _, path := range rec.touched {
 				c := filepath.Clean(path)
-				if probed[c] || seenStray[c] {
-					continue
+				if probed[c] || seenStray[c] || c == "." || c == "/" {
+					continue // the roots exist anyway
 				}
 				seenStray[c] = true
 				if _, err := fs.Stat(c); err == nil {
@@ -652,7 +652,19 @@ func (e persistEngine) genC12(g *Gen, emit func(persistIn)) {
 		}
 	}
 	rec(nil, maxLen)
-	names := []string{"a", "d/a", "d/./a", "d/e/../a", "/abs/a", "d/b", "q/r/s/t", "./a", "d//a", "z/keep", "w", "a.tmp", "d/a.tmp", "a~", "w.tmp"}
+	// on a real directory tree: a parent whose path is a string prefix of an earlier parent's
+	for _, seq := range [][]string{{"out/gen2/b", "out/gen/a"}, {"api.v1beta/x/f", "api.v1/f"}, {"ab/c", "a/c"}, {"x/yz/f", "x/y/f", "x/f"}, {"d/a", "d/./a", "d//a"}} {
+		in := persistIn{FSKind: "os"}
+		for i, nm := range seq {
+			in.Arts = append(in.Arts, mkc(nm, fmt.Sprint("t", i), false, 0644))
+		}
+		g.Count("fs", "os-tempdir")
+		emit(in)
+		in.FSKind = ""
+		emit(in)
+	}
+	names := []string{"a", "d/a", "d/./a", "d/e/../a", "/abs/a", "d/b", "q/r/s/t", "./a", "d//a", "z/keep", "w", "a.tmp", "d/a.tmp", "a~", "w.tmp",
+		"out/gen2/b", "out/gen/a", "api.v1beta/x/f", "api.v1/f"}
 	// neighbours that scratch-file schemes would use
 	pre = append(pre, fileEntJ{toB("a.tmp"), toB("old-tmp"), 0640}, fileEntJ{toB("d/a.tmp"), toB("old-da-tmp"), 0600}, fileEntJ{toB("w.tmp"), toB("w"), 0644})
 	n := 3000
@@ -697,7 +709,7 @@ func (e persistEngine) genC12(g *Gen, emit func(persistIn)) {
 			}
 			in.Procs = append(in.Procs, pj)
 		}
-		if g.Rng.Intn(8) == 0 { // the same run on a real directory tree (parents must be made on the configured file system)
+		if g.Rng.Intn(4) == 0 { // the same run on a real directory tree (parents must be made on the configured file system)
 			in.FSKind = "os"
 		}
 		g.Count("fs", map[string]string{"": "memory", "os": "os-tempdir"}[in.FSKind])
